@@ -319,6 +319,16 @@ pub fn run(ctx: &Ctx) -> Report {
                 digit_strings.push(format!("{}{}", "0".repeat(z), v));
             }
         }
+        // very long digit strings: padding of 63..300 zeros, and huge values whose low digits are small
+        for pad in [63usize, 64, 65, 100, 300] {
+            for v in ["5", "65534", "4294967295", "4294967296", "18446744073709551615"] {
+                digit_strings.push(format!("{}{v}", "0".repeat(pad)));
+            }
+        }
+        for n in [41usize, 63, 64, 65, 66, 100, 300] {
+            digit_strings.push(format!("1{}5", "0".repeat(n - 2)));
+            digit_strings.push(format!("{}", "7".repeat(n)));
+        }
         for d in ["9999999999999999999999999999999999999999", "1000000000000000000000000000000000000000", "0000000000000000000000000000000000000000", "340282366920938463463374607431768211455", "340282366920938463463374607431768211456", "18446744073709551616000", "99999999999999999999"] {
             digit_strings.push(d.to_string());
         }
